@@ -25,6 +25,12 @@ NCPU = os.cpu_count() or 8
 
 BASE_ENV = dict(os.environ)
 BASE_ENV.update({"CARGO_NET_OFFLINE": "true", "CARGO_TERM_COLOR": "never", "RUST_BACKTRACE": "0"})
+# VERIF_COV=1: measurement mode (lib/coverage.sh) - workloads are built with source-based coverage instrumentation into
+# separate target directories and every workload process leaves a profile under work/cov; verdicts are unaffected.
+COV = bool(os.environ.get("VERIF_COV"))
+if COV:
+    os.makedirs(os.path.join(os.path.dirname(os.path.dirname(os.path.abspath(__file__))), "work", "cov"), exist_ok=True)
+    BASE_ENV["LLVM_PROFILE_FILE"] = os.path.join(os.path.dirname(os.path.dirname(os.path.abspath(__file__))), "work", "cov", "%p-%8m.profraw")
 
 
 def log(*a):
@@ -46,6 +52,10 @@ def cargo_build(crate, bins=None, features=None, target_dir=None, toolchain=None
     if not os.path.exists(lock):
         shutil.copy(os.path.join(REPO, "Cargo.lock"), lock)
     tdir = target_dir or os.path.join(cdir, "target")
+    if COV and not (rustflags and "sanitizer" in rustflags):
+        toolchain = toolchain or "nightly"
+        rustflags = ((rustflags + " ") if rustflags else "") + "-Cinstrument-coverage"
+        tdir += "-cov"
     cmd = ["cargo"]
     if toolchain:
         cmd.append("+" + toolchain)
